@@ -251,6 +251,12 @@ def apply_op(w, o, via, kw):
     elif via == 'setter':
         for nm, v in kw.items():
             setattr(w, nm, v)
+    elif via == 'orbit_setter':
+        for nm, v in kw.items():
+            getattr(o, 'set_' + nm)(w, v)
+    elif via == 'world_method':
+        for nm, v in kw.items():
+            getattr(w, 'set_' + nm)(v)
     elif via == 'layer':
         w.mantle.set_state(temperature=kw['temperature'])
     elif via == 'layer_setter':
